@@ -14,35 +14,43 @@ package lrsclient
 
 //@ func (*rpcCountData).incrSucceeded
 //@   prop C50
+//@   modifies rcd.succeeded.*
 //@   ensures *rcd.succeeded == old(*rcd.succeeded)+1
 //@   assert at return end ncalls("AddUint64") == 1
 //@ func (*rpcCountData).incrErrored
 //@   prop C50
+//@   modifies rcd.errored.*
 //@   ensures *rcd.errored == old(*rcd.errored)+1
 //@   assert at return end ncalls("AddUint64") == 1
 //@ func (*rpcCountData).incrIssued
 //@   prop C50
+//@   modifies rcd.issued.*
 //@   ensures *rcd.issued == old(*rcd.issued)+1
 //@   assert at return end ncalls("AddUint64") == 1
 //@ func (*rpcCountData).incrInProgress
 //@   prop C50
+//@   modifies rcd.inProgress.*
 //@   ensures *rcd.inProgress == old(*rcd.inProgress)+1
 //@   assert at return end ncalls("AddUint64") == 1
 //@ func (*rpcCountData).decrInProgress
 //@   prop C50
+//@   modifies rcd.inProgress.*
 //@   ensures *rcd.inProgress == old(*rcd.inProgress)-1
 //@   assert at return end ncalls("AddUint64") == 1
 
 //@ func (*rpcCountData).loadAndClearSucceeded
 //@   prop C50
+//@   modifies rcd.succeeded.*
 //@   ensures result == old(*rcd.succeeded) && *rcd.succeeded == 0
 //@   assert at return 1 ncalls("SwapUint64") == 1
 //@ func (*rpcCountData).loadAndClearErrored
 //@   prop C50
+//@   modifies rcd.errored.*
 //@   ensures result == old(*rcd.errored) && *rcd.errored == 0
 //@   assert at return 1 ncalls("SwapUint64") == 1
 //@ func (*rpcCountData).loadAndClearIssued
 //@   prop C50
+//@   modifies rcd.issued.*
 //@   ensures result == old(*rcd.issued) && *rcd.issued == 0
 //@   assert at return 1 ncalls("SwapUint64") == 1
 // in-progress calls are read, never reset, by a report
@@ -53,10 +61,12 @@ package lrsclient
 // server load of one name: sum and count move together under the mutex
 //@ func (*rpcLoadData).add
 //@   prop C50
+//@   modifies rld.sum, rld.count
 //@   opt atomic mu
 //@   ensures implies(old(rld.sum)+v == old(rld.sum)+v, rld.sum == old(rld.sum)+v) && rld.count == old(rld.count)+1
 //@ func (*rpcLoadData).loadAndClear
 //@   prop C50
+//@   modifies rld.sum, rld.count
 //@   opt atomic mu
 //@   ensures implies(old(rld.sum) == old(rld.sum), s == old(rld.sum)) && c == old(rld.count) && rld.sum == 0 && rld.count == 0
 
